@@ -542,6 +542,17 @@ structure SymHelper where
   writesArg : Bool   -- some statement / `out=` keyword stores into the argument
 deriving Repr, DecidableEq
 
+/-- the helper table as the model has it (proved equal to the table read from the source:
+`gen_symm_table`): the table's expression, only `directed` returns its argument, nothing
+stores into the argument -/
+def stdHelper : Symm → SymHelper
+  | .directed => ⟨.arg, false, false⟩
+  | .symmetric => ⟨.add, true, false⟩
+  | .antisym => ⟨.sub, true, false⟩
+  | .mean => ⟨.mean, true, false⟩
+  | .max => ⟨.max, true, false⟩
+  | .min => ⟨.min, true, false⟩
+
 /-- an `EventSeries` object as far as `event_series_analysis(method='ES')` is concerned:
 arrays live in a heap and are handed around *by reference*; `cache` is the address of the
 array memoised by `@Cached.method()` on `_ndim_event_synchronization` -/
